@@ -68,3 +68,22 @@ Fixpoint grun (g : gstate) (evs : list event) : option gstate :=
   | [] => Some g
   | e :: r => match gstep g e with Some g' => grun g' r | None => None end
   end.
+
+(* ---- anchor ids ---- *)
+Local Open Scope N_scope.
+(* the event-level check: [n] = number of ids handed out so far *)
+Definition aev (n : N) (e : event) : option N :=
+  let fresh aid := if aid =? 0 then Some n else if aid =? n + 1 then Some (n + 1) else None in
+  match e with
+  | EAlias id => if (1 <=? id) && (id <=? n) then Some n else None
+  | EScalar _ _ aid _ => fresh aid
+  | ESequenceStart aid _ => fresh aid
+  | EMappingStart aid _ => fresh aid
+  | _ => Some n
+  end.
+Fixpoint arun (n : N) (evs : list event) : option N :=
+  match evs with
+  | [] => Some n
+  | e :: r => match aev n e with Some n' => arun n' r | None => None end
+  end.
+
